@@ -90,10 +90,10 @@ const (
 var c06DimNames = [dNumDims]string{"version", "entries", "nextUpdate", "crlExtensions", "encoding", "revDateForm", "serialForm", "entryExt", "issuerShape", "sigAlg", "pad", "updateTimes"}
 
 var c06Values = [dNumDims][]string{
-	dVer:    {"v2", "v1-absent", "v3"},
-	dN:      {"3", "0", "1", "2", "30", "0-present-empty", "800000"}, // the last one (a list of more than 16 MiB: four length octets) is not part of the core product
-	dNU:     {"present", "absent"},
-	dExt:    {"aki+number", "absent", "number", "aki+number-9-octets", "aki+number-20-octets", "aki+number+unknown-noncritical", "aki+number+unknown-critical", "aki+number+delta-critical", "aki+number+idp-critical", "aki+number+ian-critical", "aki+number+freshest-critical", "aki+number+aia-critical",
+	dVer: {"v2", "v1-absent", "v3"},
+	dN:   {"3", "0", "1", "2", "30", "0-present-empty", "800000"}, // the last one (a list of more than 16 MiB: four length octets) is not part of the core product
+	dNU:  {"present", "absent"},
+	dExt: {"aki+number", "absent", "number", "aki+number-9-octets", "aki+number-20-octets", "aki+number+unknown-noncritical", "aki+number+unknown-critical", "aki+number+delta-critical", "aki+number+idp-critical", "aki+number+ian-critical", "aki+number+freshest-critical", "aki+number+aia-critical",
 		// where an unsupported critical extension stands among supported critical ones must not matter
 		"critical-number+critical-aki+delta-critical", "delta-critical+critical-number+critical-aki", "critical-number+idp-critical+critical-aki", "critical-aki+critical-number"},
 	dEnc:    {"DER", "PEM-LF", "PEM-CRLF"},
